@@ -1921,10 +1921,29 @@ def _log_action_or_intents(
                 intent = parent_flow_state.context["_user_intent"]
 
             if isinstance(intent, str):
-                intent = eval_expression(
-                    '"' + intent.replace('"', '\\"') + '"',
-                    _get_eval_context(state, parent_flow_state),
-                )
+                try:
+                    intent = eval_expression(
+                        '"' + intent.replace('"', '\\"') + '"',
+                        _get_eval_context(state, parent_flow_state),
+                    )
+                except Exception as e:
+                    # A faulty expression in the intent tag of a parent flow is reported and the
+                    # action is logged without an intent
+                    log.warning(
+                        "Colang runtime exception while evaluating a meta tag of flow '%s': %s",
+                        parent_flow_state.flow_id,
+                        e,
+                        exc_info=True,
+                    )
+                    colang_error_event = Event(
+                        name="ColangError",
+                        arguments={
+                            "type": str(type(e).__name__),
+                            "error": str(e),
+                        },
+                    )
+                    _push_internal_event(state, colang_error_event)
+                    intent = None
                 break
             elif isinstance(intent, bool):
                 intent = intent_flow_config.id
